@@ -134,6 +134,89 @@ static std::string errclass(std::string m)
     return m.substr(0, 80);
 }
 
+// Syntactic situations (read off codegen.cpp / strprinter.cpp) used only to NAME a violation class:
+//  recip-fn-as-divisor      cot/csc/sec/coth/csch/sech are printed as "1/f(..)" by RewriteTrigVisitor but keep the
+//                           precedence of a function call, so no parentheses are added when they are a divisor
+//  int-piecewise-as-divisor a Piecewise whose branches are Integer literals under a division
+static void features_rec(const Basic &e, bool denom, std::set<std::string> &out)
+{
+    TypeID t = e.get_type_code();
+    bool recip = t == SYMENGINE_COT || t == SYMENGINE_CSC || t == SYMENGINE_SEC || t == SYMENGINE_COTH || t == SYMENGINE_CSCH || t == SYMENGINE_SECH;
+    bool arecip = t == SYMENGINE_ACOT || t == SYMENGINE_ACSC || t == SYMENGINE_ASEC || t == SYMENGINE_ACOTH || t == SYMENGINE_ACSCH || t == SYMENGINE_ASECH;
+    if (denom && recip)
+        out.insert("recip-fn-as-divisor");
+    if (denom && is_a<Piecewise>(e))
+        for (auto &pr : down_cast<const Piecewise &>(e).get_vec())
+            if (is_a<Integer>(*pr.first))
+                out.insert("int-piecewise-as-divisor");
+    auto neg = [](const Basic &x) { return is_a_Number(x) && down_cast<const Number &>(x).is_negative(); };
+    if (is_a<Mul>(e)) {
+        for (auto &p : down_cast<const Mul &>(e).get_dict()) {
+            features_rec(*p.first, denom != neg(*p.second), out);
+            features_rec(*p.second, false, out);
+        }
+        return;
+    }
+    if (is_a<Pow>(e)) {
+        const Pow &p = down_cast<const Pow &>(e);
+        features_rec(*p.get_base(), neg(*p.get_exp()) ? !denom : false, out);
+        features_rec(*p.get_exp(), false, out);
+        return;
+    }
+    for (auto &a : e.get_args())
+        features_rec(*a, arecip, out);
+}
+static void leaf_features(const Basic &e, std::set<std::string> &out)
+{
+    if (is_a<ComplexDouble>(e))
+        out.insert("complexdouble-literal");
+    if (is_a<RealDouble>(e) && !std::isfinite(down_cast<const RealDouble &>(e).i))
+        out.insert("nonfinite-realdouble-literal");
+    if (is_a<Integer>(e) && fabsq(q_from_int(down_cast<const Integer &>(e).as_integer_class())) >= 0x1p64Q)
+        out.insert("integer-literal-over-64-bits");
+    if (is_a<Gamma>(e))
+        out.insert("gamma");
+    for (auto &a : e.get_args())
+        leaf_features(*a, out);
+}
+// the single most specific class name for a violating expression ("" = none applies)
+static std::string features(const Basic &e, int v)
+{
+    std::set<std::string> f;
+    features_rec(e, false, f);
+    leaf_features(e, f);
+    if (f.count("complexdouble-literal"))
+        return "complexdouble-literal";
+    if (f.count("nonfinite-realdouble-literal"))
+        return "nonfinite-realdouble-literal";
+    if (f.count("integer-literal-over-64-bits") && v != V_C99F)
+        return "integer-literal-over-64-bits";
+    if (f.count("gamma") && v == V_C89)
+        return "c89-prints-gamma-as-gamma()";
+    if (f.count("recip-fn-as-divisor"))
+        return "recip-fn-as-divisor";
+    if (f.count("int-piecewise-as-divisor"))
+        return "int-piecewise-as-divisor";
+    return "";
+}
+// does the expression contain a number literal that a 15-digit decimal does not reproduce?
+static bool has_long_literal(const Basic &e)
+{
+    if (is_a<RealDouble>(e)) {
+        double d = down_cast<const RealDouble &>(e).i;
+        return std::isfinite(d) && RealEval::through15(d) != d;
+    }
+    if (is_a<Rational>(e)) {
+        const rational_class &q = down_cast<const Rational &>(e).as_rational_class();
+        double n = (double)q_from_int(get_num(q)), d = (double)q_from_int(get_den(q));
+        return RealEval::through15(n) != n || RealEval::through15(d) != d;
+    }
+    for (auto &a : e.get_args())
+        if (has_long_literal(*a))
+            return true;
+    return false;
+}
+
 int main(int argc, char **argv)
 {
     init(argc, argv, "C15");
@@ -141,7 +224,7 @@ int main(int argc, char **argv)
     Run &R = run();
 
     // ---- the term pool (de-duplicated to level 2: gcc time per term dominates)
-    PoolCfg pc = pool_cfg(thorough ? 1 : 0);
+    PoolCfg pc = pool_cfg(thorough ? 1 : -1);
     pc.maxn = 2;
     TermPool P;
     build_pool(P, pc, "pool");
@@ -283,14 +366,64 @@ int main(int argc, char **argv)
                 continue;
             std::string base = WORKDIR + "/b" + std::to_string(b) + "_" + VNAME[v];
             std::string cfile = base + ".c", bin = base + ".bin", out;
-            std::string strict = std::string("gcc -O0 -w -Werror=implicit-function-declaration -fmax-errors=0 ") + (v == V_C89 ? "-std=c89" : "-std=c99");
+            std::string strict = std::string("gcc -O0 -Werror=implicit-function-declaration -fmax-errors=0 ") + (v == V_C89 ? "-std=c89" : "-std=c99");
             std::string flags = strict;
             bool compiled = false;
-            for (int attempt = 0; attempt < 5 && !compiled; attempt++) {
+            auto reject = [&](int k, const std::string &msg) {
+                if (fns[k].stub)
+                    return;
+                const Item &it = ITEMS[fns[k].item];
+                c.count(KC_UNCOMPILABLE);
+                c.outcome(std::string(VNAME[v]) + ":uncompilable");
+                std::string ft = features(*it.e, v);
+                if (ft != "complexdouble-literal" && ft != "nonfinite-realdouble-literal")
+                    ft = errclass(msg);
+                c.violation(std::string(VNAME[v]) + ":uncompilable:" + ft,
+                            std::string(VNAME[v]) + " code for " + it.recipe + " = `" + oneline(fns[k].code) + "` does not compile: " + msg);
+                fns[k].stub = true;
+                // gcc reports an undeclared function only at its first use in the translation unit: stub every other user too
+                size_t q0 = msg.find("implicit declaration of function '");
+                if (q0 != std::string::npos) {
+                    size_t a = q0 + strlen("implicit declaration of function '"), b2 = msg.find('\'', a);
+                    std::string fname = msg.substr(a, b2 - a) + "(";
+                    for (size_t k2 = 0; k2 < fns.size(); k2++) {
+                        size_t pos = fns[k2].code.find(fname);
+                        bool whole = pos != std::string::npos && (pos == 0 || !(isalnum((unsigned char)fns[k2].code[pos - 1]) || fns[k2].code[pos - 1] == '_'));
+                        if (!fns[k2].stub && whole) {
+                            fns[k2].stub = true;
+                            c.count(KC_UNCOMPILABLE);
+                        }
+                    }
+                }
+            };
+            write_c(cfile, fns, v == V_C99F);
+            if (v == V_C89) {
+                // pass 0 (syntax only): strict ISO C89 headers do not declare the C99 math functions
+                c.count(KC_GCC_RUNS);
+                if (run_cmd(strict + " -fsyntax-only " + cfile, out) != 0)
+                    for (auto &kv : parse_errors(out, cfile))
+                        if (kv.second.find("implicit declaration of function") != std::string::npos) {
+                            const Item &it = ITEMS[fns[kv.first].item];
+                            c.count(KC_STRICT_C89);
+                            c.violation("c89:not-c89:" + errclass(kv.second),
+                                        "c89 code for " + it.recipe + " = `" + oneline(fns[kv.first].code) + "` is rejected by gcc -std=c89: " + kv.second);
+                        }
+                flags = strict + " -D_DEFAULT_SOURCE"; // the values are still checked, with the C99 functions declared
+            }
+            // pass 1 (syntax only): find the functions gcc rejects, replace them by stubs
+            c.count(KC_GCC_RUNS);
+            if (run_cmd(flags + " -fsyntax-only " + cfile, out) != 0) {
+                std::map<int, std::string> bad = parse_errors(out, cfile);
+                if (bad.empty())
+                    c.violation(std::string(VNAME[v]) + ":gcc-failed-without-locatable-error", "gcc failed for " + cs.desc(b) + ": " + out.substr(0, 400));
+                for (auto &kv : bad)
+                    reject(kv.first, kv.second);
+            }
+            // pass 2: compile and link
+            for (int attempt = 0; attempt < 3 && !compiled; attempt++) {
                 write_c(cfile, fns, v == V_C99F);
                 c.count(KC_GCC_RUNS);
-                int st = run_cmd(flags + " -o " + bin + " " + cfile + " -lm", out);
-                if (st == 0) {
+                if (run_cmd(flags + " -o " + bin + " " + cfile + " -lm", out) == 0) {
                     compiled = true;
                     break;
                 }
@@ -299,28 +432,11 @@ int main(int argc, char **argv)
                     c.violation(std::string(VNAME[v]) + ":gcc-failed-without-locatable-error", "gcc failed for " + cs.desc(b) + ": " + out.substr(0, 400));
                     break;
                 }
-                bool was_strict_c89 = (v == V_C89 && flags == strict);
-                for (auto &kv : bad) {
-                    bool implicit = kv.second.find("implicit declaration of function") != std::string::npos;
-                    const Item &it = ITEMS[fns[kv.first].item];
-                    if (was_strict_c89 && implicit) {
-                        // strict ISO C89 headers do not declare the C99 math functions: record it, then give the
-                        // function a second chance with the declarations visible so that its value is still checked
-                        c.count(KC_STRICT_C89);
-                        c.violation("c89:not-c89:" + errclass(kv.second),
-                                    "c89 code for " + it.recipe + " = `" + oneline(fns[kv.first].code) + "` is rejected by gcc -std=c89: " + kv.second);
-                        flags = strict + " -D_DEFAULT_SOURCE";
-                        continue;
-                    }
-                    if (fns[kv.first].stub)
-                        continue;
-                    c.count(KC_UNCOMPILABLE);
-                    c.outcome(std::string(VNAME[v]) + ":uncompilable");
-                    c.violation(std::string(VNAME[v]) + ":uncompilable:" + errclass(kv.second),
-                                std::string(VNAME[v]) + " code for " + it.recipe + " = `" + oneline(fns[kv.first].code) + "` does not compile: " + kv.second);
-                    fns[kv.first].stub = true;
-                }
+                for (auto &kv : bad)
+                    reject(kv.first, kv.second);
             }
+            if (!compiled)
+                c.violation(std::string(VNAME[v]) + ":batch-could-not-be-compiled", "no executable for " + cs.desc(b) + " (machinery problem, values not judged)");
             if (compiled) {
                 int st = run_cmd(bin, out);
                 std::vector<double> vals;
@@ -361,9 +477,27 @@ int main(int argc, char **argv)
                                 violated = true;
                                 if (!std::isfinite(got))
                                     c.count(KC_NAN_AT_JUDGED);
-                                std::string cls = it.level == 0 && it.recipe.rfind("literal:", 0) == 0
-                                                      ? "literal:" + std::string(type_code_name(it.e->get_type_code())) + ":" + skel(*it.e, 1)
-                                                      : skel(*it.e, 2);
+                                bool lit = it.recipe.rfind("literal:", 0) == 0;
+                                std::string cls;
+                                // attribution (naming only): does the value agree with the expression in which every number
+                                // literal was first rounded to 15 significant decimal digits?
+                                if (has_long_literal(*it.e)) {
+                                    NV alt = real_eval(*it.e, grid_point(g), num, true);
+                                    if (alt.ok) {
+                                        alt.err += 4 * num.u * fabsq(alt.v);
+                                        if (value_matches((rq)got, alt))
+                                            cls = "literal-rounded-to-15-digits";
+                                    }
+                                }
+                                if (cls.empty()) {
+                                    std::string ft = features(*it.e, v);
+                                    if (!ft.empty())
+                                        cls = ft;
+                                    else if (lit)
+                                        cls = "literal:" + skel(*it.e, 1);
+                                    else
+                                        cls = skel(*it.e, 2);
+                                }
                                 c.violation(std::string(VNAME[v]) + ":value-mismatch:" + cls,
                                             std::string(VNAME[v]) + " code for " + it.recipe + " (" + sstr(it.e) + ") = `" + oneline(fns[k].code) + "` at "
                                                 + point_str(g) + ": compiled code gives " + tstr(got) + ", reference " + qstr(ref.v, 25) + " (allowed error "
@@ -379,12 +513,14 @@ int main(int argc, char **argv)
                     }
                 }
             }
-            unlink(cfile.c_str());
-            unlink(bin.c_str());
+            if (!getenv("A13_KEEP")) {
+                unlink(cfile.c_str());
+                unlink(bin.c_str());
+            }
         }
     };
     run_cases(cs);
-    {
+    if (!getenv("A13_KEEP")) {
         std::string o;
         run_cmd("rm -rf " + WORKDIR, o);
     }
